@@ -191,13 +191,11 @@ def load_oracle(ctx, c):
     qs = np.round(rng.uniform(-1, 1, (nq, 3)), 4)
     thz = np.round(rng.uniform(-2.0 if c["negative_freq"] else 0.0, 40.0, (nq, npm)), 6)
     vecs = np.round(rng.uniform(-1, 1, (nq, npm, npm)), 6) + 1j * np.round(rng.uniform(-1, 1, (nq, npm, npm)), 6)
-    d = tempfile.mkdtemp(prefix="cijc20-")
-    try:
-        path = os.path.join(d, "matdyn.eig")
-        write_matdyn(path, qs, thz, vecs)
-        out = ctx.observe(evec_load, path, nq, npm, _bucket="C20/loader/crash", _case=c)
-    finally:
-        shutil.rmtree(d, ignore_errors=True)
+    from ..datasets import reused_dir
+    d = reused_dir("c20")            # same path as the previous case, file rewritten (matdyn.x overwrites its output)
+    path = os.path.join(d, "matdyn.eig")
+    write_matdyn(path, qs, thz, vecs)
+    out = ctx.observe(evec_load, path, nq, npm, _bucket="C20/loader/crash", _case=c)
     if len(out) != nq:
         raise PropertyViolation("C20/loader/count", "%d q-points returned" % len(out), c)
     for iq, (q, modes) in enumerate(out):
